@@ -311,6 +311,10 @@ class Engine:
                 self.res.disagreements.append(dict(suite="plans", input=inp, impl=f"{after} ; {prov}", model=m[:600]))
             if lin != "1":
                 self.res.failures.append(dict(**{"class": "plan-not-linear"}, rule=inp["rule"], input=inp, detail="the model's plan uses an old object twice: " + m[:300]))
+            if self.plan_stats["sampled"] < 3 and any(x != "-" for x in prov.split()) and any(x == "-" for x in prov.split()):
+                self.plan_stats["sampled"] += 1
+                self.res.sample(dict(kind="object identities of a result (pre-order): path of the old object in the tree the rule was applied to, or - for a fresh object",
+                                     rule=inp["rule"], tree=inp["tree"], node=inp["node"], result=after, provenance=prov, model_plan=m[:200]))
             self.plan_stats["old" if any(x != "-" for x in prov.split()) else "all-fresh"] += 1
             self.plan_stats["kept objects"] += sum(1 for x in prov.split() if x != "-")
             self.plan_stats["fresh objects"] += sum(1 for x in prov.split() if x == "-")
